@@ -13,6 +13,8 @@ import time
 import z3
 
 from . import source
+from . import symlist as _symlist
+from .symlist import SymList
 from .values import (NDArr, Store, Obj, ClsRef, FuncRef, Bound, Closure, ModRef, Builtin, Opaque, is_sym, to_z3,
                      as_int_term, concrete_int, new_array, const_array)
 
@@ -447,6 +449,7 @@ class Interp:
         cur = self.eval(_load(node.target))
         rhs = self.eval(node.value)
         if isinstance(cur, list) and isinstance(node.op, ast.Add):
+            self.note_write(cur, "extend")
             cur.extend(rhs)  # in-place list extension
             return
         v = self.binop(node.op, cur, rhs)
@@ -531,6 +534,7 @@ class Interp:
                 k = self.eval(t.slice)
                 if isinstance(c, (list, dict)):
                     kk = concrete_int(k) if isinstance(c, list) else k
+                    self.note_write(c, "del")
                     del c[kk]
                 else:
                     raise Undecided("del on non-list")
@@ -611,6 +615,12 @@ class Interp:
         h = self.hooks.get("setitem")
         if h and h(self, obj, key, v):
             return
+        if isinstance(obj, Obj):
+            found = obj.cls.lookup("__setitem__")
+            if found and found[0] == "method":
+                self.call_function(FuncRef(found[1].module, found[2], f"{found[1].module}:{found[1].name}.__setitem__", found[1]),
+                                   [obj, key, v], {})
+                return
         raise Undecided(f"setitem on {type(obj).__name__}")
 
     # ----------------------------------------------------------------- expressions
@@ -640,6 +650,10 @@ class Interp:
         return tuple(self._elts(node.elts))
 
     def e_List(self, node):
+        if len(node.elts) == 1 and isinstance(node.elts[0], ast.Starred):
+            v = self.eval(node.elts[0].value)
+            sl = _symlist.from_iterable(self, v)  # [*range(n)] / [*l] of symbolic length
+            return sl if sl is not None else list(self.iterate(v))
         return list(self._elts(node.elts))
 
     def _elts(self, elts):
@@ -664,7 +678,12 @@ class Interp:
         return d
 
     def e_JoinedStr(self, node):
-        return "<fstring>"
+        h = self.hooks.get("fstring")  # opt-in token-string model with `+` / join (pyvc/tokstr.py); default: Templ
+        if h is not None:
+            return h(self, node)
+        from .symgraph import joined_str
+
+        return joined_str(self, node)
 
     def e_Lambda(self, node):
         fr = self.stack[-1]
@@ -742,6 +761,10 @@ class Interp:
                 try:
                     return self.resolve_global(obj.name, attr)
                 except (FileNotFoundError, OSError):
+                    if obj.name == "graphiq.backends.density_matrix.numpy":
+                        # `from graphiq.backends.density_matrix import numpy as np`: the package re-exports numpy
+                        # (graphiq.DENSITY_MATRIX_ARRAY_LIBRARY == "numpy", the only library installed here)
+                        return self.models.external_attr(self, obj, attr)
                     raise Undecided(f"module {obj.name}")
             return self.models.external_attr(self, obj, attr)
         return self.models.value_attr(self, obj, attr)
@@ -755,6 +778,10 @@ class Interp:
             hi = self.eval(node.slice.upper) if node.slice.upper else None
             st = self.eval(node.slice.step) if node.slice.step else None
             lo, hi, st = (concrete_int(x) if x is not None else None for x in (lo, hi, st))
+            if isinstance(obj, SymList):
+                if node.slice.upper is None and node.slice.step is None and lo is not None and lo >= 0:
+                    return obj.tail(lo)
+                raise Undecided("slice of a symbolic-length list other than l[c:]")
             if isinstance(obj, (list, tuple, str)):
                 return obj[slice(lo, hi, st)]
             h = self.hooks.get("getslice")
@@ -767,6 +794,10 @@ class Interp:
         return self.getitem(obj, key)
 
     def getitem(self, obj, key):
+        if isinstance(obj, SymList):
+            return _symlist.index(self, obj, key)
+        if isinstance(obj, _symlist.SymDict):
+            return _symlist.dict_lookup(self, obj, key)
         if isinstance(obj, (list, tuple, str)):
             k = concrete_int(key)
             if k is None:
@@ -791,6 +822,11 @@ class Interp:
             r = h(self, obj, key)
             if r is not None:
                 return r
+        if isinstance(obj, Obj):
+            found = obj.cls.lookup("__getitem__")
+            if found and found[0] == "method":
+                return self.call_function(FuncRef(found[1].module, found[2], f"{found[1].module}:{found[1].name}.__getitem__", found[1]),
+                                          [obj, key], {})
         raise Undecided(f"subscript on {type(obj).__name__}")
 
     def e_BinOp(self, node):
@@ -877,6 +913,9 @@ class Interp:
         return set(self._comp(node.elt, node.generators, 0))
 
     def e_DictComp(self, node):
+        sd = _symlist.dictcomp_hook(self, node)  # {K(i): V(i) for i in range(<symbolic>)}
+        if sd is not None:
+            return sd
         pairs = self._comp(ast.Tuple(elts=[node.key, node.value], ctx=ast.Load()), node.generators, 0)
         return dict(pairs)
 
@@ -926,6 +965,8 @@ class Interp:
             return self.path.decide(self.truth_term(v))
         if isinstance(v, NDArr):
             raise Undecided("truth value of an array")
+        if isinstance(v, SymList):  # a list of symbolic length is true iff it is non-empty
+            return self.path.decide(to_z3(v.length) > 0)
         if isinstance(v, (Obj, ClsRef, FuncRef, Closure, Bound, Builtin, ModRef)):
             return True
         if isinstance(v, Opaque):
@@ -938,6 +979,11 @@ class Interp:
     def iterate(self, v):
         if isinstance(v, (list, tuple)):
             return list(v)
+        if isinstance(v, SymList):
+            n = concrete_int(v.length)
+            if n is None:
+                raise Undecided("iteration over a list of symbolic length without a loop contract")
+            return [v.get(z3.IntVal(k)) for k in range(n)]
         if isinstance(v, (set, frozenset)):
             return sorted(v, key=repr)
         if isinstance(v, dict):
